@@ -3,6 +3,7 @@
 -/
 import XgiModel.Proto
 import XgiModel.Core.HG
+import XgiModel.Core.HGConv
 open Lean Xgi.Proto
 
 namespace Xgi.HG.Drive
@@ -131,10 +132,46 @@ def op? (j : Json) : Option Op := do
   | "freeze" => pure .freeze
   | _ => none
 
+/-- `{"op":"derive","kind":…}`: the network a converter / `copy` / `dual` returns (the current state is unchanged) -/
+def derive? (s : HG) (j : Json) : Option (Option (HG × Outcome)) := do
+  let pairOf (p : Json) : Option (Json × Json) := match p with | .arr #[a, b] => some (a, b) | _ => none
+  let natOf (x : Json) : Option Nat := match x.getInt? with | .ok i => if i ≥ 0 then some i.toNat else none | _ => none
+  let labels (k : String) : Option (Option (List PyId)) := match getField? j k with
+    | none => some none | some .null => some none
+    | some l => (idsOfJson? l).map some
+  match ← getStr? j "kind" with
+  | "copy" => pure (copyOf s)
+  | "dual" => pure (dualOf s)
+  | "to_hypergraph" => pure (toHypergraphOf s)
+  | "edge_list" => do
+    let es ← (← getArr? j "edges").mapM idsOfJson?
+    pure (runStop HG.empty (edgeListOps es))
+  | "edge_dict" => do
+    let d ← (← getArr? j "items").mapM (fun p => do
+      let (a, b) ← pairOf p
+      pure ((← idOfJson? a), (← idsOfJson? b)))
+    pure (runStop HG.empty (edgeDictOps d))
+  | "bipartite" => do
+    let d ← (← getArr? j "pairs").mapM (fun p => do
+      let (a, b) ← pairOf p
+      pure ((← idOfJson? a), (← idOfJson? b)))
+    pure (runStop HG.empty (bipartiteOps d))
+  | "incidence" => do
+    let es ← (← getArr? j "entries").mapM (fun p => do
+      let (a, b) ← pairOf p
+      pure ((← natOf a), (← natOf b)))
+    pure (incidenceOf (← getNat? j "n") (← getNat? j "m") es (← labels "nodelabels") (← labels "edgelabels"))
+  | _ => none
+
 def handle (s : HG) (j : Json) : HG × Json :=
   match getStr? j "op" with
   | some "reset" => (HG.empty, respond HG.empty .ok)
   | some "snapshot" => (s, respond s .ok)
+  | some "derive" =>
+    match derive? s j with
+    | none => (s, badOp)
+    | some none => (s, Json.mkObj [("out", "unmodelled")])
+    | some (some (t, o)) => (s, respond t o)
   | _ =>
     match op? j with
     | none => (s, badOp)
